@@ -48,6 +48,41 @@ func pyDef(b *strings.Builder, ind string, fn PyFunc, style int) {
 	}
 }
 
+// pyClass writes a class and, between its methods, the classes declared inside it
+func pyClass(b *strings.Builder, ind string, it PyItem, all []PyItem, style int) {
+	pyDecos(b, ind, it.Decos)
+	if len(it.Bases) > 0 {
+		fmt.Fprintf(b, "%sclass %s(%s):\n", ind, it.Name, strings.Join(it.Bases, ", "))
+	} else if style == 2 {
+		fmt.Fprintf(b, "%sclass %s():\n", ind, it.Name)
+	} else {
+		fmt.Fprintf(b, "%sclass %s:\n", ind, it.Name)
+	}
+	inner := func(at int) bool {
+		wrote := false
+		for _, n := range all {
+			if n.K == "class" && n.In == it.Name && (n.At == at || (at == len(it.Methods) && n.At > at)) {
+				pyClass(b, ind+"    ", n, all, style)
+				b.WriteString("\n")
+				wrote = true
+			}
+		}
+		return wrote
+	}
+	any := inner(0)
+	for j, m := range it.Methods {
+		if j > 0 {
+			b.WriteString("\n")
+		}
+		pyDef(b, ind+"    ", m, style)
+		any = true
+		inner(j + 1)
+	}
+	if !any {
+		b.WriteString(ind + "    pass\n")
+	}
+}
+
 func renderPy(f File) string {
 	var b strings.Builder
 	style := f.Style
@@ -68,26 +103,13 @@ func renderPy(f File) string {
 				fmt.Fprintf(&b, "from %s import %s\n", it.Source, pyNames(it.Names))
 			}
 		case "class":
+			if it.In != "" {
+				continue // written inside its enclosing class
+			}
 			if i > 0 {
 				b.WriteString("\n")
 			}
-			pyDecos(&b, "", it.Decos)
-			if len(it.Bases) > 0 {
-				fmt.Fprintf(&b, "class %s(%s):\n", it.Name, strings.Join(it.Bases, ", "))
-			} else if style == 2 {
-				fmt.Fprintf(&b, "class %s():\n", it.Name)
-			} else {
-				fmt.Fprintf(&b, "class %s:\n", it.Name)
-			}
-			if len(it.Methods) == 0 {
-				b.WriteString("    pass\n")
-			}
-			for j, m := range it.Methods {
-				if j > 0 {
-					b.WriteString("\n")
-				}
-				pyDef(&b, "    ", m, style)
-			}
+			pyClass(&b, "", it, f.Items, style)
 		case "func":
 			if i > 0 {
 				b.WriteString("\n")
